@@ -1052,6 +1052,12 @@ class Engine:
             sm = self.stub_method(x, '__str__')
             if sm is not None:
                 return sm(self, [], {})
+            if getattr(x, 'vc_fields', None):
+                # a namedtuple: "Name(field=repr(value), ...)" - the repr of symbolic field values is not modelled, the
+                # text is an arbitrary string that starts with the type name
+                r = fresh(STR, 'repr_of_' + x.cls)
+                self.assume(z3.PrefixOf(z3.StringVal(x.cls + '('), r.z))
+                return r
             raise Unsupported('str() of object')
         return str(x)
 
